@@ -126,13 +126,15 @@ def build(kind, n, edges, pts=None, how=0, weights=None):
         # edge lists come in whatever integer type the caller's data has (vertex ids up to 120 fit all of these)
         earr = earr.astype([np.uint8, np.int8, np.int16, np.uint8, np.int32, np.uint16, np.int8][(n * 5 + len(edges)) % 7])
     if how == 2:
+        # "no edges" is written None, [], an empty 1-D array or an empty (0, 2) array by different callers
+        none = [None, [], np.array([]), np.empty((0, 2), dtype=int)][(n + (0 if pts is None else 1)) % 4]
         if kind == "U":
-            return ms.UndirectedGraph.init_from_edges(earr if len(edges) else None, n)
+            return ms.UndirectedGraph.init_from_edges(earr if len(edges) else none, n)
         if kind == "D":
-            return ms.DirectedGraph.init_from_edges(earr if len(edges) else None, n)
+            return ms.DirectedGraph.init_from_edges(earr if len(edges) else none, n)
         if kind == "PU":
-            return ms.PointUndirectedGraph.init_from_edges(pts, earr if len(edges) else None)
-        return ms.PointDirectedGraph.init_from_edges(pts, earr if len(edges) else None)
+            return ms.PointUndirectedGraph.init_from_edges(pts, earr if len(edges) else none)
+        return ms.PointDirectedGraph.init_from_edges(pts, earr if len(edges) else none)
     ghosts = None
     if how == 3:
         # a sparse matrix that stores a few zeros explicitly (an edge deleted by A[i, j] = 0): those are not edges
